@@ -107,6 +107,186 @@ MIXED_TABS = [
 ]
 
 
+# ---- families added for the seeded regressions C03-b, C04-a, C04-b, C09-a, C09-b ------------------
+
+BLANK_TEMPLATES = [
+    # {B} = a run of blank lines; every template is a valid module for every run
+    "def f(a):\n    if a:\n        x = 1\n{B}        y = 2\n        print(x, y)\n    return a\n\n\nprint(f(1))\n",
+    "def f(a):\n    if a:\n        x = 1\n{B}        print(x)\n    else:\n        print(a)\n    return a\n\n\nprint(f(1))\n",
+    "def f(a):\n    if a:\n        print(1)\n{B}    else:\n        print(a)\n    return a\n\n\nprint(f(1))\n",
+    "def f(a):\n    try:\n        x = int(a)\n{B}        print(x)\n    except ValueError:\n        print(a)\n    return a\n\n\nprint(f(1))\n",
+    "def f(a):\n    for i in range(a):\n        print(i)\n{B}        print(a)\n    return a\n\n\nprint(f(1))\n",
+    "def f(a):\n{B}    print(a)\n    return a\n\n\nprint(f(1))\n",
+    "def f(a):\n    def g(b):\n        print(b)\n{B}        return b\n{B}    return g(a)\n\n\nprint(f(1))\n",
+    "class K:\n    def m(self):\n        return 1\n{B}    def n(self):\n        return 2\n\n\nprint(K().m(), K().n())\n",
+    "class K:\n    a = 1\n{B}    b = 2\n\n\nprint(K.a, K.b)\n",
+    "import sys\n{B}print(sys.argv)\n{B}print(1)\n",
+    "def f(a):\n    return a\n{B}print(f(1))\n",
+    "def f(a):\n    while a:\n        a -= 1\n{B}        if a == 3:\n            break\n    else:\n        print(a)\n    return a\n\n\nprint(f(5))\n",
+    "def f(a):\n    with open(a) as fh:\n        x = fh.read()\n{B}        print(x)\n    return a\n\n\nprint(f('p'))\n",
+    "print(1)\n{B}",
+]
+
+
+def blank_run_family():
+    out = []
+    for tpl in BLANK_TEMPLATES:
+        for k in range(1, 6):
+            for ws in ("", "    ", "\t"):
+                if ws and k not in (3, 4):
+                    continue
+                out.append(tpl.replace("{B}", (ws + "\n") * k))
+    return [s for s in dict.fromkeys(out) if valid(s)]
+
+
+IMPORT_FORMS = [
+    "import os", "import os.path", "import os as opsys", "import os, sys", "from os import path", "from os import path as p",
+    "from os import (path, sep)", "from os import *", "from os.path import *", "from . import sibling", "from . import *",
+    "from .. import *", "from ... import *", "from .pkg import *", "from .pkg import name", "from ..pkg.sub import name as n",
+    "from __future__ import annotations", "import numpy as np", "from collections import *\nfrom itertools import *",
+    "from . import *\nfrom os import *", "try:\n    import fast as impl\nexcept ImportError:\n    import slow as impl",
+    "if True:\n    from . import *", "import os\nimport os", "from os import path\nfrom os import path",
+]
+IMPORT_BODIES = [
+    "", "print(1)\n", "print(undefined_name)\n", "x = path\nprint(x, undefined_name, sep)\n",
+    "def f():\n    return helper(os, sys)\n\n\nprint(f())\n", "class K(Base):\n    attr = default_value\n\n\nprint(K)\n",
+]
+
+
+def import_family():
+    out = []
+    for form in IMPORT_FORMS:
+        for body in IMPORT_BODIES:
+            out.append(form + "\n" + body)
+    out += ["def f():\n    " + form.replace("\n", "\n    ") + "\n    return undefined_name\n\n\nprint(f())\n"
+            for form in IMPORT_FORMS if "__future__" not in form and "*" not in form]
+    out += ["    " + form.replace("\n", "\n    ") + "\n    print(undefined_name)\n" for form in IMPORT_FORMS[:16]
+            if "__future__" not in form]
+    return list(dict.fromkeys(out))
+
+
+RESOURCE_CALLS = ["open(path)", "open(path, 'w')", "sqlite3.connect(path)", "socket.socket()", "tempfile.TemporaryFile()",
+                  "tempfile.NamedTemporaryFile()", "io.open(path)", "urllib.request.urlopen(path)"]
+RESOURCE_CONTEXTS = [
+    "def f(path, flag):\n    h = {R}\n    data = h.read()\n    h.close()\n    return data\n",
+    "def f(path, flag):\n    h = {R}\n    print(path)\n    print(flag)\n    return h\n",
+    "def f(path, flag):\n    if flag:\n        h = {R}\n        print(path)\n    else:\n        h = None\n    return h\n",
+    "def f(path, flag):\n    out = []\n    for p in path:\n        h = {R}\n        print(p)\n        out.append(flag)\n        out.append(h)\n    return out\n",
+    "def f(path, flag):\n    h = None\n    if flag:\n        h = {R}\n        flag = 0\n        print(flag)\n    return h\n",
+    "def f(path, flag):\n    h = {R}\n    try:\n        print(flag)\n    finally:\n        h.close()\n    return flag\n",
+    "def f(path, flag):\n    while flag:\n        h = {R}\n        flag -= 1\n        print(flag)\n    return h\n",
+    "def f(path, flag):\n    h = {R}\n    g = {R}\n    print(flag)\n    g.close()\n    return h\n",
+    "h = {R}\nprint(1)\nprint(2)\nprint(h)\n",
+    "class K:\n    def m(self, path):\n        self.h = {R}\n        h = {R}\n        print(path)\n        return h\n",
+]
+
+
+def resource_family():
+    hdr = "import io\nimport socket\nimport sqlite3\nimport tempfile\nimport urllib.request\n\n\n"
+    out = []
+    for ctx in RESOURCE_CONTEXTS:
+        for r in RESOURCE_CALLS:
+            src = hdr + ctx.replace("{R}", r)
+            if src.startswith(hdr + "def f"):
+                src += "\n\nprint(f('p', 1))\n"
+            elif "class K" in src:
+                src += "\n\nprint(K().m('p'))\n"
+            out.append(src)
+    return [s for s in out if valid(s)]
+
+
+LAYOUT_STMTS = {   # statements that black lays out differently from ast.unparse (or only at some width)
+    "plain": "a = x * 2",
+    "pow": "a = x**2",
+    "slice": "a = seq[x + 1 : y - 1]",
+    "long": "a = 'a fairly long message that is used to push this very line over the width: {} {} {}'.format(x, y, seq)",
+    "long79": "a = 'message that makes the line wider than seventy-nine: {} {}'.format(x, y)",
+}
+SHORT_BRANCHES = {
+    "ret": ["return y"], "stmt-ret": ["print(y)", "return y"], "if-ret": ["if y > 3:", "    return y", "return x"],
+    "if-if-ret": ["if y > 3:", "    return y", "if y < 0:", "    return -y", "return x"],
+}
+
+
+def orientation_family():
+    """if/else (explicit and implicit) with unequal branch lengths / branch counts / early exits, the
+    long branch containing one layout-sensitive statement; inside a function and inside a loop"""
+    out = []
+    fill = ["b = a + y", "c = b * 2", "d = c - 1", "e = d + a", "g = e * b", "h = g - c", "k = h + d", "m = k * e"]
+    for lname, lstmt in LAYOUT_STMTS.items():
+        for L in (4, 7, 9):
+            used = ["a"] + [t.split(" = ")[0] for t in fill[:L - 2]]      # every name is used: nothing is dead code
+            long_branch = [lstmt] + fill[:L - 2] + ["print(" + ", ".join(used) + ")"]
+            for sname, short in SHORT_BRANCHES.items():
+                for shape in ("implicit", "explicit", "explicit-swapped", "loop"):
+                    if shape == "implicit":
+                        body = ["if x > 10:"] + ["    " + t for t in long_branch + ["return a"]] + short
+                        src = "def _score(x, y, seq):\n" + "\n".join("    " + t for t in body)
+                    elif shape == "explicit":
+                        body = ["if x > 10:"] + ["    " + t for t in long_branch + ["return a"]] + ["else:"] + \
+                               ["    " + t for t in short]
+                        src = "def _score(x, y, seq):\n" + "\n".join("    " + t for t in body)
+                    elif shape == "explicit-swapped":
+                        body = ["if x <= 10:"] + ["    " + t for t in short] + ["else:"] + \
+                               ["    " + t for t in long_branch + ["return a"]]
+                        src = "def _score(x, y, seq):\n" + "\n".join("    " + t for t in body)
+                    else:
+                        sh = [t.replace("return y", "continue").replace("return -y", "continue").replace("return x", "continue")
+                              for t in short]
+                        body = ["for x in seq:", "    if x > 10:"] + ["        " + t for t in long_branch + ["continue"]] + \
+                               ["    " + t for t in sh] + ["return y"]
+                        src = "def _score(x, y, seq):\n" + "\n".join("    " + t for t in body)
+                    src += "\n\n\nprint(_score(1, 2, [3, 40]), _score(20, 3, [1]))\n"
+                    if valid(src):
+                        out.append((f"{lname}/L{L}/{sname}/{shape}", src))
+    return out
+
+
+def _pad_call(prefix: str, width: int, indent: int, kind: str) -> str:
+    """one bracketed statement whose line is exactly `width` columns wide at the given indent"""
+    open_, close = {"call": ("print(", ")"), "list": ("print([", "])"), "dict": ("print(dict(", "))"),
+                    "binop": ("value = (", ")"), "cond": ("if max(", ") == 3:")}[kind]
+    sep = " + " if kind == "binop" else ", "
+    items = []
+    while True:
+        name = ("k%d=value" % len(items)) if kind == "dict" else "value"
+        line = " " * indent + open_ + sep.join(items + [name]) + close
+        if len(line) > width:
+            break
+        items.append(name)
+    line = " " * indent + open_ + sep.join(items) + close
+    pad = width - len(line)
+    if pad > 0 and items:
+        last = items[-1]
+        items[-1] = (last + "_" * pad) if kind != "dict" else last.replace("=value", "=value" + "_" * pad)
+        line = " " * indent + open_ + sep.join(items) + close
+    return line.strip()
+
+
+def bracket_width_family():
+    """bracketed lines of exactly 55..70 columns at indent 4 / 8 / 12 (one module per kind and indent)"""
+    out = []
+    for kind in ("call", "list", "dict", "binop", "cond"):
+        for indent in (4, 8, 12):
+            lines = ["def report(value, flag):"]
+            pre = {4: [], 8: ["    if flag:"], 12: ["    for _ in range(2):", "        if flag:"]}[indent]
+            lines += pre
+            names = set()
+            for w in range(55, 71):
+                st = _pad_call("", w, indent, kind)
+                lines.append(" " * indent + st)
+                if kind == "cond":
+                    lines.append(" " * (indent + 4) + "print(value)")
+                names |= {t for t in __import__("re").findall(r"value_+", st)}
+            src = "\n".join(lines) + "\n    return value\n\n\nprint(report(1, True))\n"
+            for nm in sorted(names):
+                src = src.replace("def report(value, flag):", "def report(value, flag):\n    %s = value" % nm, 1) \
+                    if ("=" + nm) not in src and kind != "dict" else src
+            if valid(src):
+                out.append((f"{kind}/indent{indent}", src))
+    return out
+
+
 def small_function_family():
     """an enumerated family of small functions: two blocks per body over if/else, loops, returns,
     assignments and calls (all used, so little is deleted)"""
@@ -180,6 +360,9 @@ def build_corpus(tier: str) -> dict[str, list[str]]:
     fam["tabs"] = list(MIXED_TABS)
     fam["functions"] = small_function_family()
     fam["repo"] = repo_examples(common.REPO)
+    fam["blank_runs"] = blank_run_family()
+    fam["imports"] = import_family()
+    fam["resources"] = resource_family()
     if tier == "quick":
         fam["functions"] = fam["functions"][::5]
     return fam
@@ -246,7 +429,7 @@ def _worker_main(conn, repo: str):
             signal.setitimer(signal.ITIMER_REAL, tmo)
             if isinstance(opts, str):          # a single rule / stage function: opts = "module.function"
                 m, a = opts.split(".")
-                fn = getattr(mods[m], a)
+                fn = getattr(__import__("rmspace"), a) if m == "rmspace" else getattr(mods[m], a)
                 core.parse.cache_clear()
                 import inspect
                 kw = {}
@@ -258,8 +441,9 @@ def _worker_main(conn, repo: str):
             else:
                 for _ in range(iters):
                     core.parse.cache_clear()
+                    kw = {"max_line_length": opts["max_line_length"]} if opts.get("max_line_length") else {}
                     nxt = main.format_code(cur, safe=opts["safe"], keep_imports=opts["keep_imports"],
-                                           preserve=frozenset(opts["preserve"]))
+                                           preserve=frozenset(opts["preserve"]), **kw)
                     if not isinstance(nxt, str):
                         raise TypeError(f"format_code returned {type(nxt).__name__}")
                     res["outs"].append(nxt)
